@@ -53,6 +53,18 @@ BASES = {
 ENGINE = ("IL", "IR", "S")
 
 
+def _call_site():
+    """name of the nearest cloudsync engine function on the stack (call-site label for findings)"""
+    import sys
+    f = sys._getframe(2)
+    while f is not None:
+        fn = f.f_code.co_filename.replace("\\", "/")
+        if "/cloudsync/" in fn and "/providers/" not in fn and "/tests/" not in fn:
+            return "%s.%s" % (fn.rsplit("/", 1)[1][:-3], f.f_code.co_name)
+        f = f.f_back
+    return "?"
+
+
 class HarnessError(Exception):
     pass
 
@@ -128,6 +140,7 @@ class World:
         self.in_engine = None           # name of the engine action being executed
         self.calls = []                 # (actor, side, method, args-summary, outcome)
         self.engine_writes = []         # effective engine mutations
+        self.write_sites = []           # parallel to engine_writes: engine function that issued the provider call
         self.notes = []                 # notifications raised
         self.excs = []                  # (service, repr(exc)) swallowed by the service loop
         self.user_log = []              # (side, op, ok)
@@ -184,6 +197,7 @@ class World:
             # base is not part of the observed history
             self.calls.clear()
             self.engine_writes.clear()
+            self.write_sites.clear()
             self.notes.clear()
             self.excs.clear()
             self.user_log.clear()
@@ -278,6 +292,7 @@ class World:
             world.calls.append((world.in_engine, side, name, _summ(a), "ok"))
             if eff:
                 world.engine_writes.append((world.in_engine, side, name, _summ(a), world.clock.t))
+                world.write_sites.append(_call_site())
             h = world.hooks.get("after_write")
             if h:
                 h(world, side, name, a, ret)
